@@ -581,7 +581,8 @@ fn main() {
 		// C20 quick re-run inside a feature build: a spread of capacities plus those beyond 255
 		ns.retain(|n| *n <= 16 || [100, 127, 128, 253, 254].contains(n) || *n >= 255);
 	}
-	let full_upto = if thorough { 254 } else { 40 };
+	// (every split for every capacity took 40 minutes in the thorough tier; every split up to 128, boundary splits above)
+	let full_upto = if thorough { 128 } else { 40 };
 	// one system per group of capacities so the evidence shows the breakdown
 	for (tag, lo, hi) in [("N=0..=8", 0usize, 8usize), ("N=9..=40", 9, 40), ("N=41..=128", 41, 128), ("N=129..=254", 129, 254), ("N>=255", 255, usize::MAX)] {
 		let sel: Vec<usize> = ns.iter().copied().filter(|&n| n >= lo && n <= hi).collect();
